@@ -397,8 +397,10 @@ def replay_real(case):
     if kind in ('gaussian', 'lorentzian', 'pseudo_voigt'):
         cls = {'gaussian': M.GaussianModel, 'lorentzian': M.LorentzianModel, 'pseudo_voigt': M.PseudoVoigtModel}[kind]
         m = cls(prefix=pre)
-        for _ in range(50):
+        for trial_ in range(50):
             A, mu, s, eta = rng.normal() * 10, rng.normal() * 5, 10 ** rng.uniform(-3, 3), rng.uniform(0, 1)
+            if trial_ % 5 == 0:
+                mu = 0.0  # a peak located exactly at the origin of the axis (x - loc is x)
             P = {pre + 'amplitude': sc.scalar(A, unit='counts*us'), pre + 'loc': sc.scalar(mu, unit='us'), pre + 'scale': sc.scalar(s, unit='us')}
             if kind == 'pseudo_voigt':
                 P[pre + 'fraction'] = sc.scalar(eta)
@@ -406,7 +408,15 @@ def replay_real(case):
             d = rng.uniform(0, 3 * s)
             x = sc.array(dims=['x'], values=[mu + d, mu - d, mu, mu + fw / 2, mu - fw / 2], unit='us')
             keep = {k: v.copy() for k, v in P.items()}
-            y = m(x, **P).values
+            xkeep = x.copy()
+            try:
+                y = m(x, **P).values
+            except Exception as e:  # noqa: BLE001
+                bad.append(f'{kind} with loc = {mu!r}: raises {type(e).__name__}: {e}'[:200])
+                break
+            if not sc.identical(x, xkeep):
+                bad.append(f'{kind} with loc = {mu!r} us and x in us: the caller\'s x is overwritten (now {x.values.tolist()} {x.unit})')
+                break
             g = lambda xx, sig: A / (np.sqrt(2 * np.pi) * sig) * np.exp(-(xx - mu) ** 2 / (2 * sig ** 2))  # noqa: E731
             lo = lambda xx: A * s / np.pi / ((xx - mu) ** 2 + s ** 2)  # noqa: E731
             f = {'gaussian': lambda xx: g(xx, s), 'lorentzian': lo, 'pseudo_voigt': lambda xx: eta * lo(xx) + (1 - eta) * g(xx, s / np.sqrt(2 * np.log(2)))}[kind]
